@@ -167,6 +167,21 @@ CHECKS = {
         note="The Group layer (CleanupHlsIfNeeded, remuxer re-entrancy) is not modelled; file operations are atomic at the "
              "granularity of create/write/close/rename/remove; timestamps are whole milliseconds.",
         ref="6/C10"),
+    "C04": dict(
+        technique="TLA+ spec RtmpSession (protocol machine of rtmp.ServerSession seen from the peer; per (state, message) the set "
+                  "of allowed observations) + TLC enumeration of the state graph, of all message orders to a depth and of all "
+                  "type ids + replay of independently encoded bytes into real ServerSessions (stub observer and full "
+                  "ServerManager, 3 fragmentations, child processes, second connection) + TLC trace validation",
+        text="TLC checks that every state x message has an outcome within {served, closed}, that closed is final and a role is "
+             "taken once; every edge of the state graph over the ~160-message alphabet (handshake variants, control / command "
+             "/ data / media / aggregate shapes, chunk-header faults, chunk sizes 0..2^32-1), every order of the "
+             "state-sensitive messages to depth 4 (quick) / 6 (thorough) and every type id x payload x role is executed "
+             "against lal; TLC decides open/closed per step, process survival, session termination and that a second "
+             "publisher is still served.",
+        note="Bytes are exhaustive per field pool and structural shape, not per bit; once peer and server lose chunk alignment "
+             "the model is permissive (only no-crash / no-hang / second connection are demanded); a panic of the session "
+             "goroutine is recovered by the driver and recorded as a death (lal has no recover there).",
+        ref="6/C04", level="model_checking"),
 }
 
 NOT_APPLICABLE = {}
